@@ -10,7 +10,7 @@ def components():
 
 
 def oracles_():
-    return [comps_difftree.KeepStream(), comps_uord.UordForwardOracle(), oracles.DiffFwd(), oracles.DiffUordFwd(), comps_difftree.DiffTreeLaws("C06")]
+    return [comps_difftree.KeepStream(), comps_uord.UordForwardOracle(), oracles.DiffFwd(), oracles.DiffUordFwd(), comps_difftree.DiffTreeLaws("C06"), comps_difftree.FixedRegress("C06")]
 
 
 MANIFEST = {
